@@ -187,6 +187,9 @@ func mentionsNode(n ast.Node, suffix string) bool {
 	return found
 }
 
+// PackageVars is packageVars for the other properties' fact generators.
+func PackageVars(dir string) ([]string, error) { return packageVars(dir) }
+
 // packageVars lists the package-level variables of the non-test files of a directory.
 func packageVars(dir string) ([]string, error) {
 	ents, err := os.ReadDir(dir)
